@@ -1,6 +1,7 @@
 /-
 C20 — funds escrowed for pending orders are safe and only the owner controls them. Property theorems only.
 -/
+import ElysModel.Lemmas.Ids
 import ElysModel.Ledger.Orders
 namespace Elys.Orders.C20
 open FMap
@@ -146,5 +147,27 @@ example : Inv (run {} [.create 1 "alice" 200, .create 2 "bob" 50, .donate 2 5, .
     .execute 1 .stopLoss 7 6 true 0 true, .execute 1 .stopLoss 5 6 true 0 true, .cancel 2 "bob"]) :=
   run_inv _ _ ⟨fun _ h => by simp [FMap.get] at h, rfl, fun _ => by simp [FMap.get]⟩
     (by intro op h; simp at h; rcases h with h | h | h | h | h | h | h | h <;> subst h <;> simp [opRepaired])
+
+/-! ### ids of pending orders (the store key and the escrow account are derived from the id alone) -/
+
+theorem ids_run_inv (s : Ids.St) (ops : List Ids.Op) (hi : Ids.InvNext s) (hr : ∀ op ∈ ops, Ids.repairedNext op) :
+    Ids.InvNext (Ids.runNext s ops) := by
+  induction ops generalizing s with
+  | nil => exact hi
+  | cons op ops ih =>
+    exact ih _ (Ids.stepNext_inv hi (hr op (List.mem_cons_self ..))) (fun o ho => hr o (List.mem_cons_of_mem _ ho))
+
+/-- over every history of order creations, removals (cancel, execute) and export / import restarts that carry the exported
+counter (the code's rule), every pending order's id is below the counter and no id is pending twice: a new order never takes
+the record and the escrow account of a pending one -/
+theorem order_ids_never_reused (ops : List Ids.Op) (hr : ∀ op ∈ ops, Ids.repairedNext op) : Ids.InvNext (Ids.runNext {} ops) :=
+  ids_run_inv {} ops ⟨fun _ h => by simp at h, List.nodup_nil⟩ hr
+
+/-- WITNESS (the shape of seeded change C20-3): orders 1 2 3 created, order 1 cancelled, restart with the counter derived from the
+number of pending orders (2): the next order takes id 2, which is still pending; with the exported counter kept it takes 4. -/
+theorem order_import_by_length_witness :
+    (Ids.runNext {} [.create, .create, .create, .remove 1, .reimport .byLength, .create]).live = [2, 3, 2] ∧
+    (Ids.runNext {} [.create, .create, .create, .remove 1, .reimport .kept, .create]).live = [4, 3, 2] := by
+  constructor <;> decide
 
 end Elys.Orders.C20
